@@ -17,6 +17,7 @@ CONSTANTS
   MaxFaults = 2
   MaxStops = 1
   MaxExpire = 2
+  IgnoredStarts = TRUE
   LateRace = FALSE
 VIEW view
 INVARIANTS DeliveredAscending Outcome AncestorCommon NeverBeyondTarget PeerConservation ConnQueueSane HashReqSane NoActorBlock Restartable
